@@ -19,6 +19,11 @@ CHECKS = {
          "For accepted proofs of the subject circuits (incl. lookups, salted zero-knowledge oracles, Keccak, arity-2 and arity-4 FRI schedules with several reduction steps; configurations meeting the verdict floor q*log2(lde) >= 40): EVERY numeric leaf of the proof tree (caps, all openings, every query round's leaves, salts, siblings, coset evaluations, commit-phase caps, final polynomial, pow witness, public inputs) is changed and the real verifier must reject; every list node is dropped-from / emptied / duplicated / swapped / extended; the same on the compressed proof through verify_compressed, where the redundant `indices` list must leave the verdict unchanged; each proof is presented with every other circuit's verifier data, verifier-only data and common data; and every FRI-part / cap / opening leaf is re-checked under the honest proof's FIXED challenges through verify_fri_proof so that an element no algebraic check reads cannot hide behind Fiat-Shamir re-randomisation.",
          "trusted: serde round trip of proof types (exact u64); chance acceptance bounded by the verdict floor; single-element edits only",
          "DESIGN.md §4 C03"),
+ "C16": ("exploration",
+         "bounded enumeration of query-index multisets by steering the proof-of-work witness through the real prover (every witness 0..N at pow bits 0), x arity schedules x cap heights x query counts; oracle = identity of decompress(compress(p)), byte round trip, and agreement of verify / verify_compressed",
+         "For two circuits (plain, lookups) x 7 Fixed arity schedules x cap heights x query counts the real prover is run with every pow witness 0..N (quick 260, thorough 4000): each witness gives a different query-index tuple for the same statement, so equal indices, indices sharing a coset at layer 0/1/2 only and shared cap sub-trees all occur (collision patterns are measured and reported; a run without a full coincidence is a machinery error). Every proof: compress -> decompress identical, compressed to_bytes/from_bytes identical, verify and verify_compressed both accept. Plus one round trip per subject x single-axis configuration deviation (blinding/salts, lookups, three reduction strategies, caps), and verification equivalence on leaf-tampered proofs: verify(p') <=> verify_compressed(compress(p')) whenever compress(p') differs from the honest compression.",
+         "trusted: the H1d knob only replaces the grinding search; index tuples are those reached by N witnesses (distinct multisets reported), path compression over ALL index tuples is C12's part",
+         "DESIGN.md §4 C16"),
  "C13": ("model_checking",
          "explicit-state exploration of the challenger state machine (all observe/get sequences up to a depth) against a reference duplex-sponge model, step-by-step conformance on the real Challenger / RecursiveChallenger; bounded exhaustive state enumeration for the permutation layers against textbook Poseidon",
          "Every optimised Poseidon layer and the full permutation on 3^12 uniform-extreme states, all <=2-lane deviations over the representation alphabet from three base states and uniform/single-lane states, against a textbook round-by-round Poseidon on u128 arithmetic (anchored on the published test vectors); all message lengths 0..=40 x output counts for the sponge/compression functions; the challenger explored as a transition system: every sequence in {observe, get}^<=d (Poseidon and Keccak permutations) plus macro-operations, each step compared with a list-based duplex model, and every sequence up to a smaller depth replayed on the in-circuit RecursiveChallenger. Run in the checked profile.",
